@@ -5,7 +5,7 @@ import sys
 
 from ..srcmodel import AnalysisError, site
 from ..automat_x import Program
-from ..astutil import dotted, const, params, local_defs, is_self_attr, calls_named, same_expr, walk_shallow, enclosing_function
+from ..astutil import dotted, const, params, local_defs, is_self_attr, calls_named, same_expr, walk_shallow, enclosing_function, resolve_local
 from ..dataflow import expand, expand_flow, call_arg
 from ..effects import class_writers, is_const
 from ..cfg import build, truthy_atom, cmp_atom, in_atom, none_atom
@@ -112,8 +112,27 @@ def r2(tree, rep):
         ok = isinstance(lp.iter, ast.Call) and dotted(lp.iter.func) == "range" and len(lp.iter.args) == 1 and isinstance(lp.iter.args[0], ast.Name) \
             and lp.iter.args[0].id == params(cw)[0] and isinstance(lp.target, ast.Name)
         ifs = [s for s in lp.body if isinstance(s, ast.If)]
-        ok = ok and len(ifs) == 1 and len([s for s in lp.body if not isinstance(s, (ast.If,))]) == 0
-        if ok:
+        alt = None
+        if ok and not ifs and len(lp.body) == 1:
+            # words.append(TABLES[i % 2][os.urandom(1)].lower())  with  TABLES = (byte_to_odd_word, byte_to_even_word)
+            apps = [c for c in ast.walk(lp.body[0]) if isinstance(c, ast.Call) and dotted(c.func) == "words.append"]
+            if len(apps) == 1 and isinstance(lp.body[0], ast.Expr) and lp.body[0].value is apps[0]:
+                a = apps[0].args[0]
+                base = a.func.value if isinstance(a, ast.Call) and isinstance(a.func, ast.Attribute) and a.func.attr == "lower" else None
+                if isinstance(base, ast.Subscript) and isinstance(base.slice, ast.Call) and dotted(base.slice.func) == "os.urandom" \
+                        and const(base.slice.args[0]) == 1 and isinstance(base.value, ast.Subscript):
+                    sel = base.value
+                    tb = resolve_local(cw, sel.value) if isinstance(sel.value, ast.Name) else sel.value
+                    idx = sel.slice
+                    if isinstance(tb, (ast.Tuple, ast.List)) and len(tb.elts) == 2 and isinstance(idx, ast.BinOp) and isinstance(idx.op, ast.Mod) \
+                            and const(idx.right) == 2 and isinstance(idx.left, ast.Name) and idx.left.id == lp.target.id:
+                        alt = (dotted(tb.elts[0]), dotted(tb.elts[1]))
+        if alt is not None:
+            parity_choose = alt
+            ok = alt == ("byte_to_odd_word", "byte_to_even_word")
+        else:
+            ok = ok and len(ifs) == 1 and len([s for s in lp.body if not isinstance(s, (ast.If,))]) == 0
+        if ok and alt is None:
             x, even_true = _parity_branch(cw, ifs[0].test)
             ok = isinstance(x, ast.Name) and x.id == lp.target.id
             tabs = {}
@@ -188,7 +207,10 @@ def r2(tree, rep):
               site(offenders[0][1], offenders[0][0]) if offenders else WL, key="C19.R2:no-random-module")
     ig = tree.func(INP, "Input", "_get_nameplate_completions")
     g = build(ig, split=True)
-    adds = g.call_nodes(lambda c: dotted(c.func) == "completions.add")
+    set_locals = {n.targets[0].id for n in ast.walk(ig) if isinstance(n, ast.Assign) and isinstance(n.targets[0], ast.Name)
+                  and isinstance(n.value, ast.Call) and dotted(n.value.func) == "set" and not n.value.args}
+    adds = g.call_nodes(lambda c: isinstance(c.func, ast.Attribute) and c.func.attr == "add" and isinstance(c.func.value, ast.Name)
+                        and c.func.value.id in set_locals)
     starts_np = truthy_atom(lambda e: isinstance(e, ast.Call) and isinstance(e.func, ast.Attribute) and e.func.attr == "startswith"
                             and len(e.args) == 1 and isinstance(e.args[0], ast.Name) and e.args[0].id == params(ig)[0])
     rep.check("C19.R2", "a nameplate completion is offered only if it starts with the typed prefix", len(adds) == 1 and not g.only_when(adds, starts_np, True),
